@@ -141,7 +141,7 @@ func cliRun(src, mode string, alloc int) (stdout, stderr string, failed, ok bool
 	cmd.Env = append(os.Environ(), "HOME="+cliHome, "EGO_PATH="+cliHome)
 	var so, se strings.Builder
 	cmd.Stdout, cmd.Stderr = &so, &se
-	err = cmd.Run()
+	err := cmd.Run()
 	return so.String(), se.String(), err != nil, true
 }
 
